@@ -1,0 +1,96 @@
+//! Verification hooks that need access to `Machine` internals
+//! (cargo feature `verif`; re-exported from `crate::verif`).
+
+use super::Machine;
+use crate::arena::ArenaHeaderTag;
+use crate::atom_table::*;
+use crate::types::*;
+
+/// A snapshot of the sizes of the machine's data areas, taken at a quiescent point.
+#[derive(Debug, Clone, Default, PartialEq, Eq)]
+pub struct Footprint {
+    pub heap_cells: usize,
+    pub heap_byte_len: usize,
+    pub heap_byte_cap: usize,
+    pub stack_top: usize,
+    pub b: usize,
+    pub e: usize,
+    pub block: usize,
+    pub scc_block: usize,
+    pub trail_len: usize,
+    pub tr: usize,
+    pub load_contexts: usize,
+    pub inactive_load_states: usize,
+    pub f64_entries: usize,
+    pub atom_table_entries: usize,
+    pub code_len: usize,
+    pub lifted_heap_cells: usize,
+    pub ball_cells: usize,
+    pub ball_stack_len: usize,
+    pub cont_pts: usize,
+    pub attr_var_queue: usize,
+    pub global_clock: usize,
+    pub inferences: u128,
+    pub throwing_resource_error: bool,
+    pub tabu_list: usize,
+    pub pdl: usize,
+}
+
+impl Machine {
+    /// Reads the sizes of the machine's data areas.
+    pub fn verif_footprint(&self) -> Footprint {
+        let st = &self.machine_st;
+        let (heap_byte_len, heap_byte_cap) = st.heap.verif_len_cap();
+
+        Footprint {
+            heap_cells: st.heap.cell_len(),
+            heap_byte_len,
+            heap_byte_cap,
+            stack_top: st.stack.top(),
+            b: st.b,
+            e: st.e,
+            block: st.block,
+            scc_block: st.scc_block,
+            trail_len: st.trail.len(),
+            tr: st.tr,
+            load_contexts: self.load_contexts.len(),
+            inactive_load_states: st
+                .arena
+                .verif_slab_count_by_tag(ArenaHeaderTag::InactiveLoadState),
+            f64_entries: st.arena.f64_tbl.verif_entry_count(),
+            atom_table_entries: st.atom_tbl.active_table().len(),
+            code_len: self.code.len(),
+            lifted_heap_cells: st.lifted_heap.cell_len(),
+            ball_cells: st.ball.stub.cell_len(),
+            ball_stack_len: st.ball_stack.len(),
+            cont_pts: st.cont_pts.len(),
+            attr_var_queue: st.attr_var_init.attr_var_queue.len(),
+            global_clock: st.global_clock,
+            inferences: st.cwil.global_count,
+            throwing_resource_error: st.throwing_resource_error,
+            tabu_list: st.unify_tabu_list.len(),
+            pdl: st.pdl.len(),
+        }
+    }
+
+    /// Pushes filler cells onto the heap until exactly `free_cells` cells
+    /// remain below the current capacity (no growth is triggered). Returns
+    /// `false` if fewer than `free_cells` cells are free already.
+    pub fn verif_heap_leave_free(&mut self, free_cells: usize) -> bool {
+        let heap = &mut self.machine_st.heap;
+        let (len, cap) = heap.verif_len_cap();
+        let free = (cap - len) / std::mem::size_of::<crate::types::HeapCellValue>();
+
+        if free < free_cells {
+            return false;
+        }
+
+        for _ in 0..free - free_cells {
+            if heap.push_cell(empty_list_as_cell!()).is_err() {
+                return false;
+            }
+        }
+
+        true
+    }
+}
